@@ -302,6 +302,19 @@ class SymNDArray(_np.ndarray, metaclass=_NDMeta):
                 _has_sym(self):
             # a float cast of symbolic reals is the identity in "real" mode
             return self.copy()
+        if self.dtype == object and _np.dtype(dtype).kind in 'iu' and \
+                _has_sym(self):
+            # integer cast: truncation toward zero, kept symbolic
+            out = _np.empty(self.shape, dtype=object).view(SymNDArray)
+            of = out.reshape(-1)
+            for i, x in enumerate(self.reshape(-1)):
+                if isinstance(x, SymReal):
+                    of[i] = x.trunc()
+                elif isinstance(x, Sym):
+                    of[i] = x
+                else:
+                    of[i] = int(x)
+            return out
         return _np.ndarray.astype(self, dtype, *a, **k)
 
     def min(self, axis=None, out=None, keepdims=_np._NoValue, **k):
@@ -716,6 +729,32 @@ def make_numpy_shim():
     if hasattr(_np, 'round_'):
         over['round_'] = _round
 
+    def _wrap_sym(realf):
+        def f(*a, **k):
+            dt = k.get('dtype', a[1] if len(a) > 1 and realf in (
+                _np.array, _np.asarray) else None)
+            if dt is not None and a and _has_sym(a[0]):
+                try:
+                    isnum = _np.dtype(dt).kind in 'fiu'
+                except TypeError:
+                    isnum = False
+                if isnum:
+                    # numeric cast of symbolic values: stay symbolic
+                    k2 = dict(k)
+                    k2.pop('dtype', None)
+                    r = realf(a[0], dtype=object, **k2)
+                    if isinstance(r, _np.ndarray) and r.ndim:
+                        r = r.view(SymNDArray).astype(dt)
+                    return r
+            r = realf(*a, **k)
+            if type(r) is _np.ndarray and r.dtype == object and r.ndim and \
+                    _has_sym(r):
+                return r.view(SymNDArray)
+            return r
+        return f
+    for _n in ('array', 'asarray', 'append', 'concatenate', 'atleast_1d',
+               'diff'):
+        over[_n] = _wrap_sym(getattr(_np, _n))
     over['ndarray'] = SymNDArray
     over['isclose'] = isclose
     over['allclose'] = allclose
